@@ -8,6 +8,7 @@ import (
 	"io/fs"
 	"path/filepath"
 	"sort"
+	"strconv"
 	"strings"
 )
 
@@ -213,10 +214,59 @@ func extractCommands(c *ctx) {
 			})
 		}
 	}
+	// what the lock file holds and how it is read back: the format verb `lock` writes the pid with,
+	// the byte limit of the reader in repoIsAvailable, and the length test that refuses the file
+	lockFormat, lockReadLimit, lockRefuseOp, lockRefuseLen, lockParser := "unknown", -1, "unknown", -1, "unknown"
+	if f, err := parser.ParseFile(fset, filepath.Join(c.repo, "cache/repo_cache.go"), nil, 0); err == nil {
+		for _, d := range f.Decls {
+			fd, ok := d.(*ast.FuncDecl)
+			if !ok || fd.Body == nil {
+				continue
+			}
+			switch fd.Name.Name {
+			case "lock":
+				ast.Inspect(fd.Body, func(x ast.Node) bool {
+					if call, ok := x.(*ast.CallExpr); ok && callName(call) == "Sprintf" && len(call.Args) == 2 && strings.Contains(exprString(fset, call.Args[1]), "Getpid") {
+						if lit, ok := call.Args[0].(*ast.BasicLit); ok {
+							lockFormat, _ = strconv.Unquote(lit.Value)
+						}
+					}
+					return true
+				})
+			case "repoIsAvailable":
+				ast.Inspect(fd.Body, func(x ast.Node) bool {
+					switch n := x.(type) {
+					case *ast.CallExpr:
+						switch callName(n) {
+						case "LimitReader":
+							if len(n.Args) == 2 {
+								if lit, ok := n.Args[1].(*ast.BasicLit); ok {
+									lockReadLimit, _ = strconv.Atoi(lit.Value)
+								}
+							}
+						case "Atoi", "ParseInt", "ParseUint", "Sscanf", "Sscan":
+							lockParser = callName(n) + "(" + exprString(fset, n.Args[0]) + ")"
+						}
+					case *ast.IfStmt:
+						if be, ok := n.Cond.(*ast.BinaryExpr); ok && strings.HasPrefix(exprString(fset, be.X), "len(") {
+							if lit, ok := be.Y.(*ast.BasicLit); ok {
+								lockRefuseOp = be.Op.String()
+								lockRefuseLen, _ = strconv.Atoi(lit.Value)
+							}
+						}
+					}
+					return true
+				})
+			}
+		}
+	}
 	var b strings.Builder
 	b.WriteString("namespace GitBugModel.Gen.Commands\n\n")
 	fmt.Fprintf(&b, "/-- how `RepoCache.lock` creates the lock file -/\ndef lockCreation : String := %q\ndef lockExclusive : Bool := %v\n\n", lockCreation, lockExclusive)
+	fmt.Fprintf(&b, "/-- the lock file's content: format verb of the pid, byte limit of the reader, the length test that refuses the file (operator, bound), the parser -/\ndef lockFormat : String := %q\ndef lockReadLimit : Int := %d\ndef lockRefuseOp : String := %q\ndef lockRefuseLen : Int := %d\ndef lockParser : String := %q\n\n", lockFormat, lockReadLimit, lockRefuseOp, lockRefuseLen, lockParser)
 	c.facts["lock_exclusive"] = lockExclusive
+	c.facts["lock_read_limit"] = lockReadLimit
+	c.facts["lock_refuse_len"] = lockRefuseLen
 	b.WriteString("/-- every `cobra.Command` literal under commands/: (file, Use, PreRunE loader, RunE wrapped in execenv.CloseBackend, RunE closes the backend by hand on every return) -/\n")
 	b.WriteString("def commands : List (String × String × String × Bool × Bool) := [\n")
 	for i, cf := range cmds {
